@@ -60,7 +60,7 @@ def _jobs(tier, seed):
     for i, g in enumerate(fam[: max(12, p["nfam"] // 6)]):
         alpha = [t[2] for t in g["terms"]]
         words = list(gen.token_strings(alpha, 3)) + [w for w in gen.directed_inputs(g, rng, n_all=2, maxlen=5, n_sent=6, n_mut=4)]
-        jobs.append({"g": g, "inputs": sorted({"".join(w) for w in words}), "origin": "det", "consume": True, "list": True})
+        jobs.append({"g": g, "inputs": sorted({"".join(w) for w in words}), "origin": "det", "consume": True, "list": True, "strlast": i % 2 == 1})
     # hand-written list / optional idioms in sequence (gen.idiom_family): all token strings <= 3, sentences up to 6 tokens and corruptions
     rng = random.Random(31339)
     for g in gen.idiom_family(limit=p["nidiom"], rng_seed=4712):
@@ -199,8 +199,11 @@ def worker(job):
         # list (non-string) input: terminals with empty bodies and custom recognizers that index input[pos] without a bounds check
         # (as the repository's own tests do); ws=None
         head = text.split("terminals\n")[0]
-        text = head + "terminals\n" + "".join("%s: ;\n" % t[0] for t in g["terms"])
-        recs = {t[0]: (lambda name: (lambda inp, pos: inp[pos:pos + 1] if inp[pos] == name else None))(t[2]) for t in g["terms"]}
+        # "strlast": the LAST terminal stays a plain string terminal; its recognizer is tried on the list like any other and simply never matches
+        # a list slice (round-4 seeded change C10-h: str.startswith on a list raised AttributeError)
+        custom = g["terms"][:-1] if job.get("strlast") and len(g["terms"]) >= 2 else g["terms"]
+        text = head + "terminals\n" + "".join("%s: ;\n" % t[0] for t in custom) + "".join('%s: "%s";\n' % (t[0], t[2]) for t in g["terms"][len(custom):])
+        recs = {t[0]: (lambda name: (lambda inp, pos: inp[pos:pos + 1] if inp[pos] == name else None))(t[2]) for t in custom}
         with real.quiet():
             grammar0 = real.Grammar.from_string(text, recognizers=recs)
         text_or_grammar = grammar0
@@ -227,7 +230,7 @@ def worker(job):
                 glr_runs[(tables, wkey)] = _run_glr(real, glrs[tables], w) if glrs[tables] else {"kind": "nobuild", "n": 0, "trees": [], "exc": NOEXC}
             lr = _run_lr(real, parser, w) if parser else {"kind": "nobuild", "tree": NOTREE, "exc": NOEXC}
             out.append({
-                "name": "%s [%s,ps=%d,pse=%d%s%s] @ %r" % (gen.gname(g), tables, ps, pse, "" if consume else ",prefix", (",list-input" if job.get("list") else "") + (",LAYOUT-rule" if job.get("extra") else ""), w),
+                "name": "%s [%s,ps=%d,pse=%d%s%s] @ %r" % (gen.gname(g), tables, ps, pse, "" if consume else ",prefix", (",list-input" + ("(last terminal a string)" if job.get("strlast") else "") if job.get("list") else "") + (",LAYOUT-rule" if job.get("extra") else ""), w),
                 "listinput": bool(job.get("list")), "overlap": bool(job.get("overlap")),
                 "gtext": text, "tables": tables, "ps": ps, "pse": pse, "prio": False, "consume": consume, "origin": job["origin"],
                 "built": parser is not None, "build_err": err or "", "prods": prods, "terms": terms, "tbl": tbl,
